@@ -333,6 +333,25 @@ GROUPS = {
              "  | true => cases hv : validator dflt <;> stateobj_eval"),
         ],
     },
+    "completion": {
+        "import": "Haiway.Bridge.Completion", "open": "Haiway.MiniPy Haiway.Bridge.Completion",
+        "defs": {
+            name: Target("src/haiway/context/metrics.py", "ScopeMetrics", meth, [], {"_finished": 1, "_parent": 2, "_timestamp": 3},
+                         {("self._completed", "done"): (220, []), ("self._completed", "set_result"): (221, ["@0"])},
+                         ext_functions={"monotonic": (222, [])}, method_externals={"_complete_if_able": (225, ["$recv"])},
+                         inline_self={"_complete_if_able"},
+                         expr_externals={"any((not nested.is_completed for nested in self._nested))": (223, [])})
+            for name, meth in (("gCompleteIfAble", "_complete_if_able"), ("gFinish", "_finish"))
+        },
+        "obligations": [
+            ("complete_if_able_one_level", ["gCompleteIfAble"], "CompleteIfAble gCompleteIfAble",
+             "intro finished done nestedOpen now created parent args\n  unfold gCompleteIfAble\n"
+             "  cases finished <;> cases done <;> cases nestedOpen <;> cases parent <;> completion_eval"),
+            ("finish_one_level", ["gFinish"], "Finish gFinish",
+             "intro finished done nestedOpen now created parent args\n  unfold gFinish\n"
+             "  cases finished <;> cases done <;> cases nestedOpen <;> cases parent <;> completion_eval"),
+        ],
+    },
     "queue": {
         "import": "Haiway.Bridge.Queue", "open": "Haiway.MiniPy Haiway.Bridge.Queue",
         "defs": {
